@@ -99,6 +99,19 @@ Proof.
   - cbn [negb]. rewrite andb_true_r. reflexivity.
 Qed.
 
+Lemma accept_field_region_true W f :
+  accept_field W f = true ->
+  exists rs sz, type_size (f_ty f) = Some sz /\ region_checks W rs sz (f_count f) (f_stride f) = true.
+Proof.
+  rewrite accept_field_region.
+  destruct (if (if f_list f then true else match f_entries f with [_] => true | _ => false end)
+            then parse_entries (f_list f) (f_bits_kw f) (f_entries f) else None) as [rs|]; [|discriminate].
+  destruct rs as [|r rs]; [discriminate|].
+  destruct (match f_count f, f_stride f with None, Some _ => true | _, _ => false end); [discriminate|].
+  destruct (type_size (f_ty f)) as [sz|]; [|discriminate].
+  intros H. apply andb_true_iff in H. destruct H as [H _]. exists (r :: rs), sz. split; [reflexivity|exact H].
+Qed.
+
 (** ** A finite grid for the report: where a re-translation first differs *)
 Definition region_grid : list (N * list (N * N) * option N * option N * option N) :=
   let Ws := [8; 13; 128] in
